@@ -210,10 +210,10 @@ theorem accepted_is_disciplined (p : Pid) (evs : List Ev) :
 open Viv.Sched in
 /-- **The engine never sends a command to a process that still has one pending, and collects
 every result exactly once** — in every reachable log, for every process set, oracle and call
-sequence; consequently `end()` is safe at the end of (and at any point between) the calls. -/
+sequence whatever (any lengths, zero included, forced or not); consequently `end()` is safe at the end of (and at any point between) the calls. -/
 theorem engine_requests_disciplined (c : Cfg) (hb : PosBeh c.beh) (t0 : Int) (pids : List Pid)
     (hnd : pids.Nodup) (layers : List (List Sid)) (store : Store) (calls : List (Nat × Bool))
-    (hpos : ∀ cf ∈ calls, 0 < cf.1) (s' : St)
+    (s' : St)
     (hrun : runCalls c calls (init c t0 pids layers store) = some s')
     (p : Pid) (f : Front) (hp : (p, f) ∈ s'.fronts) :
     disciplined (reqsOf p s'.log) = true ∧
@@ -223,9 +223,11 @@ theorem engine_requests_disciplined (c : Cfg) (hb : PosBeh c.beh) (t0 : Int) (pi
     simp [init, init0] at hpf
     obtain ⟨q, _, rfl⟩ := hpf
     simp [FrontOK, newFront, init, init0]
-  have h := runCalls_preserves c hb Paired (fun s t hp => hp)
-    (fun endT s force hp hinv hlt => iter_paired c hb endT s force hp hinv hlt)
-    calls _ s' hrun (init_paired c t0 pids layers store hnd) hinit hpos
+  have h := runCalls_preserves0 c hb Paired (fun s t hp => hp)
+    (fun endT s force hp hinv _ => iter_paired' c hb endT s force hp hinv)
+    (fun s hp hinv _ => iter_paired' c hb s.gt s true hp hinv)
+    calls _ s' hrun (init_paired c t0 pids layers store hnd) hinit
+    (init_noPending c t0 pids layers store)
   have hd := accepted_is_disciplined p s'.log 0 _ (h.1.2 (p, f) hp) (by simp)
   obtain ⟨s, hs, _, hstop⟩ := end_safe_at_any_point _ hd
   exact ⟨hd, s, hs, hstop⟩
